@@ -612,6 +612,21 @@ def generate(ctx: Ctx, scale: int, rng):
                 b = [gen_label(rng, 5)] + b
             elif m == 2:
                 b = [bytes(x).swapcase() if rng.chance(1, 2) else x for x in b]
+            elif m == 3 and len(b) > 2:
+                # two names whose labels join to the same octets around a separator: a dot (or NUL, or nothing) moved
+                # across a label boundary — distinct names that a careless equality / table lookup would confuse
+                i = rng.below(len(b) - 2)
+                sep = rng.choice([b".", b".", b"\x00", b""])
+                x, y = bytes(b[i]), bytes(b[i + 1])
+                b1 = b[:i] + [x + sep, y] + b[i + 2:]
+                b2 = b[:i] + [x, sep + y] + b[i + 2:]
+                if sep == b"" and len(y) > 1:
+                    b1 = b[:i] + [x + y[:1], y[1:]] + b[i + 2:]
+                    b2 = b[:i] + [x, y] + b[i + 2:]
+                for bb in (b1, b2):
+                    if wf(bb) and all(len(l_) > 0 for l_ in bb[:-1]):
+                        names.append(bb)
+                continue
             if wf(b):
                 names.append(b)
         pad = rng.choice([0, 0, 12, 0x3FF0, 0x3FFA, 0x3FFD, 0x3FFE, 0x3FFF, 0x4000, 0x4001]) if rng.chance(1, 3) else rng.below(40)
